@@ -14,7 +14,7 @@ CLAUSES = {
 }
 DEATH = {"panic", "abort", "hang"}
 
-DEVS = ["silent_cancel_drop", "join_no_recheck", "cancel_skip_unsettled", "stop_timeout_ok"]
+DEVS = ["silent_cancel_drop", "join_no_recheck", "cancel_skip_unsettled", "stop_timeout_ok", "keepalive_precedence"]
 
 
 def cfg(nt, nw, mx, mn, ms, ops, waiters, view):
@@ -27,6 +27,7 @@ CONSTANTS
   MaxSusp = %d
   MaxOps = %d
   Waiters = {%s}
+  KeepAlive = FALSE
   Deviations = {}
 %sINVARIANTS DumpHist
 CHECK_DEADLOCK FALSE
@@ -58,6 +59,20 @@ def seeded(rng, pid):
             hist.append({"a": "body", "t": t, "step": "finish"})
         hist += [{"a": "pass"}, {"a": "pass"}]
         return {"nt": nt, "max": 1, "min": 0, "hist": hist, "outcomes": {}, "prios": prios, "order": True, "src": "priority-batch"}
+    if pid == "C11" and rng.random() < 0.25:
+        # a positive keep-alive time (CoPool.tla, KeepAlive = TRUE): several workers are created (every task yields
+        # once), the work completes, and the pool is stopped long before the workers' keep-alive time has passed.
+        # (two or more workers: a single idle worker inside its keep-alive window never yields to the scheduler)
+        nt = rng.choice([2, 3, 4])
+        hist, outcomes = [], {}
+        for t in range(1, nt + 1):
+            outcomes[str(t)] = "ok"
+            hist.append({"a": "submit", "t": t})
+            hist.append({"a": "body", "t": t, "step": "suspend"})
+            hist.append({"a": "body", "t": t, "step": "finish"})
+        hist += [{"a": "pass", "ms": 20}, {"a": "pass", "ms": 20}] + [{"a": "tick"}] * 10 + [{"a": "stop", "ms": 250}]
+        return {"nt": nt, "max": rng.choice([2, 4]), "min": 0, "keep_alive_ms": 1500, "hist": hist, "outcomes": outcomes, "prios": {},
+                "order": False, "src": "keep-alive-then-stop"}
     nt = rng.choice([3, 5, 8])
     mx = rng.choice([1, 2, 4])
     mn = 0   # with min_size > 0 an idle worker never yields, so a timed pass never returns (see DESIGN.md, observations)
@@ -121,7 +136,7 @@ def run(pid, tier):
     wd = workdir(pid)
     cov = {}
     bindir = build_harness()
-    insts = [("MC_CoPool.cfg", None)] + [("MC_CoPool_%s.cfg" % d, "any") for d in DEVS]
+    insts = [("MC_CoPool.cfg", None), ("MC_CoPool_keepalive.cfg", None)] + [("MC_CoPool_%s.cfg" % d, "any") for d in DEVS]
     if tier == "thorough":
         insts.append(("MC_CoPool_big.cfg", None))
     mc_runs("CoPool", insts, tier, cov)
